@@ -1286,3 +1286,79 @@ def rf164(run):
                 if x['k'] == 'CallExpr' and x.get('callee') == PUSH and 'macro_call_stack' in F.src(F.call_args(x)[0]))
     run.control(rule, 'pushes onto macro_call_stack seen', npush >= 2)
     return n
+
+
+# ---------------------------------------------------------------------------------------------
+# RF181: a redundant declaration item has exactly one releaser
+# ---------------------------------------------------------------------------------------------
+
+RF181_CALLERS = ('new_export_import_forward', 'MIR_new_bss', 'MIR_new_data', 'MIR_new_ref_data', 'MIR_new_lref_data', 'MIR_new_expr_data')
+
+
+def rf181(run):
+    rule = 'RF181'
+    run.rule(rule, 'mir.c: add_item may answer with an item that is already in the module (repeated import, export of an exported definition, '
+                   'the same declaration twice); the freshly created item is then redundant.  For each of the six creating functions '
+                   '(frozen list) either the caller releases it under `result != item`, or add_item releases its parameter at *every* place '
+                   'where it switches to the existing item — never a mixture: a place served by neither leaks one item per repeated '
+                   'declaration, a place served by both frees it twice')
+    tu = run.tu('mir')
+    f = tu.func('add_item')
+    run.functions_analysed.add(('mir', f.name))
+    pname = f.params[1]['n']
+    # places where add_item switches to another item
+    sites = []
+    for x in f.walk():
+        if x['k'] == 'BinaryOperator' and x['op'] == '=' and F.src(F.strip(x['c'][0])) == pname and F.strip(x['c'][1])['k'] == 'DeclRefExpr' \
+                and F.strip(x['c'][1])['n'] != pname:
+            sites.append(x)
+        if x['k'] == 'ReturnStmt' and F.kids(x) and F.strip(F.kids(x)[0])['k'] == 'DeclRefExpr' and F.strip(F.kids(x)[0])['n'] != pname:
+            sites.append(x)
+    if not sites:
+        raise F.AnalysisBroken('add_item: no place that answers with an existing item was found')
+
+    def freed_before(x):
+        st = x
+        p_ = f.parent_of(st)
+        while p_ is not None and p_['k'] != 'CompoundStmt':
+            st, p_ = p_, f.parent_of(p_)
+        if p_ is None:
+            return False
+        for s_ in F.kids(p_):
+            if s_ is st:
+                return False
+            if any(y['k'] == 'CallExpr' and (y.get('callee') or '').endswith('free') and any(F.src(F.strip(a)) == pname for a in F.call_args(y))
+                   for y in F.walk(s_)):
+                return True
+        return False
+    inside = [freed_before(x) for x in sites]
+    callers = {}
+    for fn in RF181_CALLERS:
+        g = tu.func(fn)
+        if g is None or g.body is None:
+            raise F.AnalysisBroken('%s not found' % fn)
+        run.functions_analysed.add(('mir', fn))
+        frees = False
+        for x in g.walk():
+            if x['k'] == 'IfStmt' and any(y['k'] == 'CallExpr' and y.get('callee') == 'add_item' for y in F.walk(x['c'][0])):
+                call = next(y for y in F.walk(x['c'][0]) if y['k'] == 'CallExpr' and y.get('callee') == 'add_item')
+                arg = F.src(F.strip(F.call_args(call)[1]))
+                frees = any(y['k'] == 'CallExpr' and (y.get('callee') or '').endswith('free') and any(F.src(F.strip(a)) == arg for a in F.call_args(y))
+                            for y in F.walk(x['c'][1]))
+        callers[fn] = frees
+    n = 0
+    for fn, cf in callers.items():
+        n += 1
+        if cf:
+            ok = not any(inside)
+            why = 'the caller releases the redundant item and add_item releases it as well (line %d): freed twice' % \
+                  next(x['l'] for x, i_ in zip(sites, inside) if i_) if not ok else None
+        else:
+            ok = all(inside)
+            why = 'neither %s nor add_item releases the redundant item when add_item answers with the existing one at line %d: one item leaks per ' \
+                  'repeated declaration' % (fn, next(x['l'] for x, i_ in zip(sites, inside) if not i_)) if not ok else None
+        run.ob(rule, (fn,), ok, {'creating function': fn, 'releases under result != item': cf,
+                                'places where add_item answers with an existing item': [x['l'] for x in sites], 'released there': inside})
+        if not ok:
+            run.violation(rule, tu.func(fn), 'redundant item of %s' % fn, why, line=tu.func(fn).line)
+    return n
